@@ -245,6 +245,37 @@ def run(c):
     c.cov["distinct_nontrivial"] = len(nontrivial)
     c.cov["replay_stats"] = stats
 
+    # ---- 2b. the real TunnelGateway loop over loopback UDP (real time; >= 5 s from the expiry instant) ------
+    gout = os.path.join(c.work, "gateway.json")
+    rc, so = c.sh([binp, "gateway", gout], timeout=600)
+    if rc != 0:
+        c.drift("gateway loop run failed rc=%s %s" % (rc, (so or "")[-300:]))
+    else:
+        g = json.load(open(gout))
+        steps = {x["step"]: x for x in g["log"]}
+        c.cov["gateway_loop"] = g["log"]
+        if g["authorised_phase_done_at_s"] > g["life"] - 5:
+            c.drift("gateway loop: machine too slow (authorised phase took %.1fs), positive expectations not judged" % g["authorised_phase_done_at_s"])
+        for phase, what in (("lapsed", "lapse"), ("superseded", "supersession")):
+            x = steps.get("%s:good" % phase)
+            if x and x["dispatched"]:
+                c.violation("gateway:flow-after-%s:in" % what, "real gateway loop dispatched a tunnelled datagram after the %s of the registration" % what, g)
+            if x and x["replies"]:
+                c.violation("gateway:flow-after-%s:reply" % what, "real gateway loop sent %s towards the client after the %s" % (json.dumps(x["replies"]), what), g)
+            y = steps.get("%s:outbound" % phase)
+            if y and y["delivered"]:
+                c.violation("gateway:flow-after-%s:out" % what, "real gateway loop encrypted an outbound packet towards the client after the %s" % what, g)
+        if g["authorised_phase_done_at_s"] <= g["life"] - 5:
+            for name in ("authorised:good", "reregistered:good"):
+                x = steps.get(name)
+                if not x or x["dispatched"] != 1 or not x["intact"]:
+                    c.drift("gateway loop: %s was not dispatched exactly once intact: %s" % (name, json.dumps(x)))
+            for name in ("authorised:outbound", "reregistered:outbound"):
+                y = steps.get(name)
+                if not y or y["delivered"] != 1 or not y["intact"]:
+                    c.drift("gateway loop: %s did not reach the client exactly once intact: %s" % (name, json.dumps(y)))
+        c.cov["evaluations"] += len(g["log"])
+
     # ---- 3. record -> Trace_SnapTunnel -----------------------------------------------------------------
     runs, ln = (200, 400) if thorough else (30, 300)
     ev = os.path.join(c.work, "trace.ndjson")
